@@ -204,3 +204,29 @@ def known_bad_irs():
     out["builder-field"] = (ir.definition(types=[ir.object_("HasBuilderField", [ir.field("builder", P("INTEGER")), ir.field("build", P("STRING"))], package="com.kb")]),
                             {}, "C03:compile:known:builder-field")
     return out
+
+
+def crate_irs():
+    """definitions for full-crate output: each mix of types / errors / services decides which runtime crates the manifest needs"""
+    pkg = "com.palantir.crt"
+    R = lambda n: ir.ref(n, pkg)
+    obj = ir.object_("Thing", [ir.field("id", P("RID")), ir.field("when", ir.optional(P("DATETIME"))), ir.field("d", ir.list_(P("DOUBLE")))], package=pkg)
+    en = ir.enum_("Kind", ["A", "B"], package=pkg)
+    err_prims = ir.error("Oops", "Crt", "NOT_FOUND", [ir.field("id", P("RID")), ir.field("n", P("INTEGER"))], [ir.field("t", P("BEARERTOKEN")), ir.field("u", ir.optional(P("UUID")))], package=pkg)
+    err_types = ir.error("OopsThing", "Crt", "CONFLICT", [ir.field("k", R("Kind"))], [ir.field("thing", ir.optional(R("Thing")))], package=pkg)
+
+    def svc(with_types):
+        t = R("Thing") if with_types else P("STRING")
+        eps = [ir.endpoint("get", "GET", "/a/{id}", [ir.arg("id", P("RID"), "path"), ir.arg("u", ir.optional(P("UUID")), "query", "u"),
+                                                     ir.arg("t", P("DATETIME"), "header", "T"), ir.arg("s", ir.set_(P("DOUBLE")), "query", "s")], returns=t, auth="header"),
+               ir.endpoint("put", "POST", "/b", [ir.arg("body", P("BINARY"), "body")], returns=ir.optional(P("BINARY")), auth="COOKIE"),
+               ir.endpoint("any", "POST", "/c", [ir.arg("body", P("ANY"), "body")], returns=ir.map_(P("STRING"), P("SAFELONG")))]
+        return ir.service("Only", eps, package=pkg)
+    return {
+        "types": ir.definition(types=[obj, en]),
+        "errors": ir.definition(errors=[err_prims]),
+        "services": ir.definition(services=[svc(False)]),
+        "types_errors": ir.definition(types=[obj, en], errors=[err_prims, err_types]),
+        "services_errors": ir.definition(services=[svc(False)], errors=[err_prims]),
+        "all": ir.definition(types=[obj, en], services=[svc(True)], errors=[err_types]),
+    }
